@@ -10,7 +10,7 @@ TITLE = "returned specifications count the start class correctly"
 COQ_PROPS = "Props/C01.v"
 COQ_RUN = ("Spec.CountRun", "run_c01")
 GEN_TARGETS = ["compositions", "quotient_parent_shift"]
-N = {"quick": 600, "thorough": 8000}
+N = {"quick": 6000, "thorough": 30000}
 CASE_CPU_SECONDS = 240
 NMAX = 8
 RULE = (
